@@ -610,10 +610,13 @@ func startsWithDeferredDone(fn *ssa.Function) bool {
 			if sc := x.Call.StaticCallee(); sc != nil && sc.String() == "(*sync.WaitGroup).Done" {
 				return true
 			}
-		case *ssa.Call, *ssa.Go, *ssa.Store, *ssa.Select, *ssa.Send:
-			if c, ok := x.(*ssa.Call); ok {
-				_ = c
+		case *ssa.Store:
+			// spilling a parameter that a closure captures into its local cell is not an action
+			if _, local := x.Addr.(*ssa.Alloc); local {
+				continue
 			}
+			return false
+		case *ssa.Call, *ssa.Go, *ssa.Select, *ssa.Send:
 			return false
 		}
 	}
